@@ -292,7 +292,11 @@ fn reschedule(new: St, worked: bool, other_first: bool) {
             St::Joining(_) => "joining",
             St::Finished => "finished",
         }));
-        simcore::try_with(|d| d.sig(0x5c00 + ((me as u64) << 4) + next as u64));
+        simcore::try_with(|d| {
+            d.sig(0x5c00 + ((me as u64) << 4) + next as u64);
+            // (evidence: simulator steps of an Engine M run are its baton hand-overs)
+            d.step();
+        });
         if new == St::Finished {
             simcore::adopt(false);
             ME.with(|m| m.set(NONE));
